@@ -106,21 +106,45 @@ def _pyargs(uni, args):
     return tuple(out)
 
 
+def _style(case):
+    """how the call is written: 0 positional tuple, 1 keyword tuple, 2 positional list, 3 keyword list (derived from the case, so replays agree)"""
+    return (len(str(case["arr"]["values"])) + len(str(case["op"]))) % 4
+
+
+CLASSES = ("FlodymArray", "Parameter", "StockArray", "Flow")
+
+
+def _build(uni, desc, case):
+    """the array as FlodymArray or one of its subclasses (the operations are inherited; results are plain arrays)"""
+    import flodym as fd
+    cname = CLASSES[(len(str(desc["values"])) + len(desc["dims"])) % 4] if case.get("stream") != "malformed" and not desc.get("dtype") else "FlodymArray"
+    if cname == "Flow":
+        p0, p1 = fd.Process(name="sysenv", id=0), fd.Process(name="use", id=1)
+        return build_array(uni, dict(desc, kwargs=dict(from_process=p0, to_process=p1, name="f")), cls=fd.Flow)
+    return build_array(uni, desc, cls=getattr(fd, cname))
+
+
 def run_impl(case):
     uni = case["uni"]
-    a = build_array(uni, case["arr"])
+    a = _build(uni, case["arr"], case)
     op = case["op"]
     k = op["kind"]
+    st = _style(case)
+    seq = (lambda t: list(t)) if st >= 2 else (lambda t: tuple(t))
     if k == "sum_to":
-        f = lambda: a.sum_to(_pyargs(uni, op["args"]))
+        args = seq(_pyargs(uni, op["args"]))
+        f = (lambda: a.sum_to(result_dims=args)) if st % 2 else (lambda: a.sum_to(args))
     elif k == "sum_over":
-        f = lambda: a.sum_over(_pyargs(uni, op["args"]))
+        args = seq(_pyargs(uni, op["args"]))
+        f = (lambda: a.sum_over(sum_over_dims=args)) if st % 2 else (lambda: a.sum_over(args))
     elif k == "cast":
-        f = lambda: a.cast_to(fl_dimset(uni, op["target"]))
+        tgt = fl_dimset(uni, op["target"])
+        f = (lambda: a.cast_to(target_dims=tgt)) if st % 2 else (lambda: a.cast_to(tgt))
     elif k == "shares":
-        f = lambda: a.get_shares_over(tuple(op["letters"]))
+        ls = seq(op["letters"])
+        f = (lambda: a.get_shares_over(dim_letters=ls)) if st % 2 else (lambda: a.get_shares_over(ls))
     elif k == "cumsum":
-        f = lambda: a.cumsum(op["letter"])
+        f = (lambda: a.cumsum(dim_letter=op["letter"])) if st % 2 else (lambda: a.cumsum(op["letter"]))
     o = observe(f)
     if o["kind"] == "ok":
         o["value"] = observe_array(o["value"], snap=(k == "shares"))
